@@ -208,7 +208,7 @@ func (c *ctx) caseSkel(ts []tok, nilMapping bool) {
 	tags := []string{fmt.Sprintf("len=%d", min(len(ts), 16))}
 	// SeqQL
 	q := renderToks(ts, false)
-	beginCase("seqql " + q)
+	beginCase(fmt.Sprintf("sqfull %s %s", mm, mt))
 	o, root, _ := runParser("seqql", q, m)
 	o = treeOf(o, root)
 	nt := o.tree != nil && o.tree.size() > 1
@@ -222,7 +222,7 @@ func (c *ctx) caseSkel(ts []tok, nilMapping bool) {
 	c.chSq.Add(fmt.Sprintf("sqfilter %s %s", mm, mt), s2, nt, "filter="+o2.kind)
 	// legacy
 	q = renderToks(ts, true)
-	beginCase("legacy " + q)
+	beginCase(fmt.Sprintf("lgfull %s %s", mm, mt))
 	o, root, _ = runParser("legacy", q, m)
 	o = treeOf(o, root)
 	nt = o.tree != nil && o.tree.size() > 1
@@ -529,9 +529,9 @@ func (e *E) render(st style, r *vh.RNG, lvl int) string {
 }
 
 func (c *ctx) caseTruth(which string, k int, want string, q string, _ string, tag string) {
-	beginCase(which + " " + q)
-	defer endCase()
 	replay := fmt.Sprintf("truth %s %d %s %s -", which, k, want, hexs(q))
+	beginCase(replay)
+	defer endCase()
 	o, root, _ := runParser(which, q, fullMapping())
 	nt := strings.Count(q, ":") > 2
 	c.orTruth.Case(which+" "+q, nt, "parser="+which, "style="+tag, "result="+o.kind)
@@ -592,7 +592,7 @@ func (c *ctx) runTruth(r *vh.RNG) {
 // ---------------------------------------------------------------- oracle total
 
 func (c *ctx) caseTotal(which, mid, q, tag string) {
-	beginCase(which + " " + mid + " " + q)
+	beginCase(fmt.Sprintf("total %s %s %s", which, mid, hexs(q)))
 	o, _, _ := runParser(which, q, mappingByID(mid))
 	endCase()
 	c.orTotal.Case(which+" "+mid+" "+q, o.kind != "ok", "parser="+which, "mapping="+mid, "gen="+tag, "result="+o.kind)
